@@ -7,6 +7,7 @@ CONSTANTS
  TagDels = {1}
  SubjSel = {"ror", "split"}
  Spells = {"dig"}
+ Dopts = {"check"}
  MaxOps = 5
  MaxConc = 1
  SameSubject = TRUE
